@@ -327,7 +327,21 @@ func genCase(rng *rand.Rand, big bool) tcase {
 		c.ClientAddr = fmt.Sprintf("%d.%d.%d.%d:%d", 1+rng.Intn(222), rng.Intn(256), rng.Intn(256), 1+rng.Intn(254), 1024+rng.Intn(60000))
 	}
 	c.SlowAddr = c.First == "rst" || rng.Intn(3) == 0
-	// frame
+	c.buildFrame(rng)
+	c.ClientBody = bodySize(rng, big)
+	c.BackendBody = bodySize(rng, big)
+	if c.ClientBody > 0 && rng.Intn(3) != 0 {
+		c.Pipelined = 1 + rng.Intn(min(c.ClientBody, 6000))
+	}
+	if rng.Intn(3) == 0 {
+		c.ReadChunk = []int{1, 3, 7, 64, 1400}[rng.Intn(5)]
+	}
+	return c
+}
+
+// buildFrame draws the frame encoding (canonical, or non-canonical inner VarInts and/or
+// trailing bytes) for the case's handshake fields.
+func (c *tcase) buildFrame(rng *rand.Rand) {
 	c.Exotic = rng.Intn(4) == 0
 	if c.Exotic {
 		p := litefwd.AppendVarIntPadded(nil, 0, 1+rng.Intn(2))
@@ -345,15 +359,6 @@ func genCase(rng *rand.Rand, big bool) tcase {
 	} else {
 		c.Frame = litefwd.Handshake{Protocol: c.Protocol, Address: c.Address, Port: c.Port, Next: c.Next}.Frame()
 	}
-	c.ClientBody = bodySize(rng, big)
-	c.BackendBody = bodySize(rng, big)
-	if c.ClientBody > 0 && rng.Intn(3) != 0 {
-		c.Pipelined = 1 + rng.Intn(min(c.ClientBody, 6000))
-	}
-	if rng.Intn(3) == 0 {
-		c.ReadChunk = []int{1, 3, 7, 64, 1400}[rng.Intn(5)]
-	}
-	return c
 }
 
 func (c tcase) key() string {
@@ -655,6 +660,8 @@ func TestC31(t *testing.T) {
 	r.Rule("end-of-stream classes (eos_test.go), client side a real loopback TCP connection (3/4) or in-memory: backend-half-close = backend sends k bytes (0..1 MiB, concurrently with an early client upload 0..512 KiB), CloseWrite, keeps reading; client (synced on the half-close + settle delay, or free-running) sends a late chunk and a further upload (mostly 1-2 MiB) and ends by half-close-then-read-to-EOF or close. client-half-close = client uploads 0..2 MiB and half-closes, backend sends 1 B..4 MiB after the client's EOF / concurrently / concurrently with the client half-closing only after it has it all. backend-close = backend sends k bytes and closes. Same handshake/option/first-backend generator as above")
 	r.Assume("end-of-stream reading: the end of the CLIENT's stream is the end of the forwarded connection (Gate's pipe returns when the client->backend copy ends and Forward closes both sides), so after a client half-close only 'every client byte reached the backend' and 'the client got a prefix of the backend's bytes' are judged; a short stream is judged only once the receiving connection ended (EOF/error), a watchdog expiry is inconclusive; a backend stream cut by a TCP reset because the backend was still sending when Gate closed is not judged (counted)")
 
+	r.Assume("behind-listener class (listener_test.go): a real proxy.Proxy in Lite mode with listener option proxyProtocol on is started with Proxy.Start on a loopback port (3 proxies: trusted upstreams = Gate's default list / an explicit list containing 127.0.0.1 / a list NOT containing the fake load balancer); a fake load balancer dials it over real TCP and sends [inbound PROXY header: v1 TCP4/TCP6, v2 TCP4/TCP6 with or without TLVs, v2 LOCAL, v1 UNKNOWN, or none] + handshake + client bytes in one segment or cut header|rest, header|handshake|rest, header+handshake|rest, inside a binary header, inside the handshake; 16 routes (all 8 option combinations x refusing backend first or not) selected by a token in the virtual host. 'The client's real address' is the address the trusted upstream announced; when there is nothing to honour (no header, LOCAL/UNKNOWN, upstream not trusted and sending no header) it is the TCP peer's address. A header from an untrusted upstream is rejected by the listener (property C33) and not generated here. An inbound v1 header is always sent in one segment (go-proxyproto, like haproxy, requires that)")
+
 	n := r.N(240, 10000)
 	workers := 4
 	var (
@@ -764,6 +771,7 @@ func TestC31(t *testing.T) {
 
 	statusPath(r)
 	endOfStream(r)
+	behindListener(r)
 }
 
 // statusPath: the other caller of dialRoute. A status request through the real
